@@ -138,6 +138,8 @@ def run(ctx):
         if resc:
             stc = cli.run_and_compare(ctx, ctx.bdir, cmetas, resc['impl'])
             n_eval += stc['runs']
+        # ... and against the Gallina front end the theorems C17_cli_runs_from_the_given_seed* speak about
+        cli.compare_with_model(ctx, ctx.bdir, cmetas, name='K-CLI(model, 8 selections)', check_created=False)
     ctx.oracle.update({'evaluations': n_eval, 'distinct_nontrivial': len(keys),
                        'rule': 'whole runs, all 8 variants, r <= 4, graphs with sink/source vertices: the entries observed at realization_start are compared (as multisets for the random starts, positionally for file value + 0.1 x draw) with consecutive segments of the reference std::mt19937/uniform stream of the seed; zero rows, range [0,1), symmetry. distinct = (variant, r > 1, some vertex outside u_list)'})
     ctx.samples = [{'case': cases[0][:300]}]
